@@ -1188,6 +1188,49 @@ fn family_review(g: &mut G, rng: &mut Rng, thorough: bool) {
         }
     }
 
+    // ---- C19 (seeded C19-10): an object WAITING for an FDT is attached only through an unexpired instance.  Instance 1
+    //      (30 s) lists A and is received alive; A's packets arrive after instance 1 expired and wait; then a newer,
+    //      unexpired instance 2 that does NOT list A completes (attach_latest_fdt_to_objects runs): A stays silent.
+    //      Control with the expiry check disabled: A is delivered through instance 1.
+    for (k, skew_s) in [0i64, 3 * 365 * 86400, -3600].iter().enumerate() {
+        for (sct, chk) in [(true, true), (false, true), (true, false)] {
+            let skew = if sct { *skew_s * SEC } else { 0 };
+            g.cfg2(&format!("waiting-object-newer-fdt-{}-sct{}-chk{}", k, sct as u8, chk as u8), 0, false, true, 1 << 16, true, chk, skew, sct, 0);
+            g.ctx.nontrivial(&format!("waiting-object-newer-fdt {} {} {}", k, sct, chk));
+            g.ctx.count("expiry:waiting-object-newer-fdt");
+            let s = |t: i64| if sct { Some(t) } else { None };
+            let f1 = fdt_xml(&ntp_secs(T0 + 30 * SEC).to_string(), &[("43".to_string(), 40)], 16, 8);
+            for (i, p) in fdt_pkts(&f1, 1, 64, s(T0)).iter().enumerate() {
+                g.push(p, T0 + i as i64 + skew);
+            }
+            // A arrives a minute later (all packets but the last): instance 1 has expired, A waits
+            let a = obj_pkts(43, 40, 16, 8, false, false);
+            for p in a.iter().take(a.len() - 1) {
+                g.push(p, T0 + 60 * SEC + skew);
+            }
+            g.probe();
+            // the newer instance 2 (far from expiry) lists only B and completes now
+            let f2 = fdt_xml(&far(13), &[("44".to_string(), 40)], 16, 8);
+            for (i, p) in fdt_pkts(&f2, 2, 64, s(T0 + 61 * SEC)).iter().enumerate() {
+                g.push(p, T0 + 61 * SEC + i as i64 + skew);
+            }
+            g.probe();
+            g.push(&a[a.len() - 1], T0 + 62 * SEC + skew);
+            for p in obj_pkts(44, 40, 16, 8, false, false) {
+                g.push(&p, T0 + 63 * SEC + skew);
+            }
+            g.cleanup(T0 + 64 * SEC + skew, false);
+            g.probe();
+            if chk {
+                g.expect_s(43, "C19");
+            } else {
+                g.expect_c(43, 40, "C19:check-disabled-not-delivered");
+            }
+            g.expect_c(44, 40, "C19");
+            g.end();
+        }
+    }
+
     // ---- C19 (seeded C19-3, review): EXT_TIME with SCT-High only; SCT on a subset of an instance's
     //      packets; one instance with SCT and one without in the same session, under skew
     for (k, skew_s) in [0i64, 86400, -86400, 40 * 365 * 86400].iter().enumerate() {
